@@ -132,6 +132,24 @@ def work_vs_fresh(args):
     return fails
 
 
+def related_family():
+    """programs that share sub-expressions in different surroundings: the same constant inner call (among them the one-shot iterators the
+    constant evaluator may build: zip, enumerate, reversed, map, filter, iter) under different consumers and in different statements - what a
+    cache keyed by the TEXT of an expression, a node hash or a template would confuse"""
+    inners = ['zip("a", "b")', 'enumerate("ab")', 'reversed("ab")', 'map(str, (1, 2))', 'filter(None, (0, 1))', 'iter((1, 2))', 'range(2)', '[1, 2]', '{"k": 1}.items()']
+    consumers = ["list({})", "tuple({})", "sorted({})", "any({})", "len(list({}))", "bool(list({}))", "dict(enumerate({}))"]
+    frames = ["import sys\n\nif {c}:\n    sys.exit(1)\n", "x = 1 if {c} else 2\nprint(x)\n", "def f(y):\n    return {c} and y\n\n\nprint(f(3))\n"]
+    out = []
+    for k, inner in enumerate(inners):
+        for j, cons in enumerate(consumers):
+            out.append(frames[(k + j) % len(frames)].format(c=cons.format(inner)))
+    return out
+
+
+def fresh_each(xs):
+    return [fresh_process_results([x])[0] for x in xs]
+
+
 def run(tier, seed):
     rnd = random.Random(seed)
     srcs = P.corpus()
@@ -146,6 +164,13 @@ def run(tier, seed):
     groups = [[x for x, _ in fc_pairs[i::16]] for i in range(16)]
     groups = [g_ for g_ in groups if g_]
     wants = P.pool_map(fresh_process_results, groups, chunksize=1, maxtasks=1)
+    # related programs: each one's reference result comes from a process of its own
+    rel = related_family()
+    rel_groups = [rel[i::8] for i in range(8)]
+    rel_wants = P.pool_map(fresh_each, rel_groups, chunksize=1, maxtasks=1)
+    rel_all, rel_want_all = [x for g_ in rel_groups for x in g_], [w for ws in rel_wants for w in ws]
+    groups = groups + [rel_all]
+    wants = wants + [rel_want_all]
     r3 = P.pool_map(work_vs_fresh, [(g_, w, seed + i) for i, (g_, w) in enumerate(zip(groups, wants))], chunksize=1)
     rules = P.rule_names()
     out = []
@@ -164,8 +189,8 @@ def run(tier, seed):
         for r in rs:
             fl.append({"id": f"{r['cls']}::{P.sha(r['input'])}", "cls": r["cls"], "input": r["input"], "observed": r["what"], "required": "same result as in a fresh process"})
     out.append({"name": "c05-format-code-history", "function": "main.format_code", "contract": "same result: first call, second call, after other inputs and eviction of the 100-entry parse cache, fresh process, shuffled history",
-                "space": f"{len(fc_pairs)} corpus modules x {len(OPTS)} option sets x histories [x], [x, x], [x, x, y, 130 parses, x]; fresh-process comparison with a shuffled double pass", "bound": "corpus sample",
-                "evaluations": len(fc_pairs) * (len(OPTS) * 4 + 3), "distinct_nontrivial": len(fc_pairs), "exhaustive": False, "failures": P.cap(fl), "samples": [fc_pairs[0][0][:200]]})
+                "space": f"{len(fc_pairs)} corpus modules x {len(OPTS)} option sets x histories [x], [x, x], [x, x, y, 130 parses, x]; fresh-process comparison with a shuffled double pass; " + f"{len(rel)} related programs (9 constant inner calls x 7 consumers x 3 statement frames) in one shuffled history against one fresh process each", "bound": "corpus sample",
+                "evaluations": len(fc_pairs) * (len(OPTS) * 4 + 3) + 3 * len(rel), "distinct_nontrivial": len(fc_pairs), "exhaustive": False, "failures": P.cap(fl), "samples": [fc_pairs[0][0][:200]]})
     return out
 
 
